@@ -344,3 +344,62 @@ def standin(name, which, describe):
     sd = Standin(name, run, describe=describe)
     sd.replay = lambda recipe, src_root: fn(recipe, src_root)
     return sd
+
+
+# ------------------------------------------------------------------ helper functions of the labelled solvers (C02 / C03)
+def check_sets(recipe, src_root):
+    """_compute_gain_sets / _compute_lca_sets / _make_prec_graph against their contracts, stated with parent chains only."""
+    from . import srec
+
+    usr = native.import_real(USR, src_root)
+    sr = native.import_real(SR, src_root)
+    recipe = {k: v for k, v in recipe.items() if k != "root_syn"}  # a prescribed root order belongs to the ordered model only
+    P = srec.Problem(src_root, recipe)
+    fams = sorted({f for s in P.leaf_syn.values() for f in s})
+    try:
+        gains = usr._compute_gain_sets(P.inp)
+        snapshot = {n: set(v) for n, v in gains.items()}
+        req = usr._compute_lca_sets(P.inp, gains)
+    except Exception as e:
+        return f"_compute_gain_sets / _compute_lca_sets raised {type(e).__name__}: {e}"
+    if {n: set(v) for n, v in gains.items()} != snapshot:
+        return "_compute_lca_sets modified the gain sets"
+    if set(gains) != set(P.onodes) or set(req) != set(P.onodes):
+        return "gain sets / required sets are not defined on exactly the nodes of the object tree"
+    for f in fams:
+        carriers = [l for l in P.leaves if f in P.leaf_syn[l]]
+        g = carriers[0]
+        while not all(recon.anc(g, c) for c in carriers):
+            g = g.up
+        where = [n for n in P.onodes if f in gains[n]]
+        if where != [g]:
+            return f"family {f} is gained at {[n.name for n in where]}, the lowest common ancestor of the leaves carrying it is {g.name}"
+        for n in P.onodes:
+            want = recon.anc(g, n) and any(recon.anc(n, c) for c in carriers)
+            if (f in req[n]) != want:
+                return f"required content of {n.name}: family {f} {'present' if f in req[n] else 'absent'}, expected {'present' if want else 'absent'} (it occurs below the node and is gained at or above it)"
+    for n in P.onodes:
+        if not set(gains[n]) <= set(fams) or not set(req[n]) <= set(fams):
+            return f"unknown family in the sets of {n.name}"
+    # precedence graph of the ordered solver (families as vertices, an edge for each pair of consecutive families of a leaf)
+    try:
+        prec = sr._make_prec_graph(P.inp.leaf_syntenies)
+    except Exception as e:
+        return f"_make_prec_graph raised {type(e).__name__}: {e}"
+    want_edges = {(s[i], s[i + 1]) for s in P.leaf_syn.values() for i in range(len(s) - 1)}
+    got_edges = {(a, b) for a, bs in prec.items() for b in bs}
+    if set(prec) != set(fams):
+        return f"_make_prec_graph: vertices {sorted(prec)} differ from the families {fams}"
+    if got_edges != want_edges:
+        return f"_make_prec_graph: edges {sorted(got_edges)} differ from the consecutive pairs {sorted(want_edges)}"
+    return None
+
+
+def gen_sets(tier, rng):
+    from . import srec
+
+    for r in srec.gen(tier, rng, ("unordered", "ordered"), count=400 if tier != "thorough" else 6000):
+        yield r
+
+
+CHECKS["sets"] = (check_sets, gen_sets)
